@@ -1,0 +1,28 @@
+//go:build verif
+
+// Contracts (//@ lines) for package debug.
+// Compiled only with -tags verif; adds no behaviour.
+package debug
+
+import (
+	"github.com/xjslang/xjs/ast"
+)
+
+var _ ast.Node
+
+func old[T any](x T) T                           { return x }
+func implies(a, b bool) bool                     { return !a || b }
+func ncalls(name string) int                     { return 0 }
+func callArg[T any](name string, k int, i int) T { var z T; return z }
+func callResult[T any](name string, k int) T     { var z T; return z }
+func fresh(x any) bool                           { return true }
+func isNil(x any) bool                           { return x == nil }
+
+// The debug string of a node is what a fresh compact writer without mapper holds after the node printed itself: the
+// same configuration Compile uses in compact mode, with no post-processing.
+//@ func ToString
+//@   props C14
+//@   assumes [wf] !isNil(node)
+//@   atcall ast:slotWriteTo [writer.config@C14] arg_cw != nil && fresh(arg_cw) && !arg_cw.PrettyPrint && arg_cw.Mapper == nil && arg_cw.IndentLevel == 0 && ast.WriterEmpty(arg_cw)
+//@   ensures [once@C14] ncalls("slotWriteTo") == 1 && callArg[ast.Node]("slotWriteTo", 0, 0) == node
+//@   ensures [result@C14] ncalls("(*CodeWriter).String") == 1 && result == callResult[string]("(*CodeWriter).String", 0)
